@@ -47,13 +47,13 @@ func invParser(p *Parser) bool {
 //@ ensures [inv] invParser(p) && p.pos == 0 && p.input == input
 
 //@ func (*Parser).forward
-//@ requires invParser(p) && n >= 0 && n <= 1<<47
+//@ requires invParser(p) && n >= 0 && n <= 1<<48
 //@ modifies p.data, p.pos
 //@ ensures [inv]  invParser(p)
 //@ ensures [move] result == (old(p.pos)+n <= p.len) && (result ==> p.pos == old(p.pos)+n) && (!result ==> p.pos == old(p.pos))
 
 //@ func (*Parser).backward
-//@ requires invParser(p) && n >= 0 && n <= 1<<47
+//@ requires invParser(p) && n >= 0 && n <= 1<<48
 //@ modifies p.data, p.pos
 //@ ensures [inv]  invParser(p) && p.pos <= old(p.pos)
 
